@@ -416,7 +416,7 @@ func HarnessC13FullDuplexStream() {
 // and the happens-before monitor watches the state the two goroutines and
 // the library's request goroutine share (sticky error, response, pipe).
 //
-//verif:harness property=C13 stubs=json,wire sched=explore preempt=1 preemptT=2 shard=proto:3 race=on
+//verif:harness property=C13 stubs=json,wire sched=explore preempt=1 preemptT=1 shard=proto:3 race=on
 func HarnessC13CancelledDuplex() {
 	proto := nondetChoice("proto", 3)
 	ctx := &pollCtx{kind: nondetChoice("kind", 2)}
